@@ -54,6 +54,7 @@ func init() {
 			ruleBridgeGate(c)
 			c.Clause("C18-D2/D3/D4")
 			ruleBridgeIDs(c)
+			ruleConstantFormats(c)
 			c.Clause("C18-D5")
 			ruleAtomicCounter(c, "client", c.M.CNextID)
 		},
